@@ -144,6 +144,8 @@ mutual
 partial def eqV : V → V → Bool
   | .nil, .nil => true
   | .bool a, .bool b => a == b
+  | .bool a, .int b => (if a then 1 else 0) == b      -- Bool is a descendant of Int: `true == 1`
+  | .int a, .bool b => a == (if b then 1 else 0)
   | .int a, .int b => a == b
   | .flt a, .flt b => a == b
   | .str a, .str b => a == b
@@ -157,6 +159,15 @@ partial def eqList : List V → List V → Bool
   | x :: xs, y :: ys => eqV x y && eqList xs ys
   | _, _ => false
 end
+
+/-- key equivalence of maps: scalar keys are compared through their hash (type-strict: `1` and `true` are different
+    keys), the others with `==` (so `[1, 0]` and `[true, false]` are the same key) -/
+def keyEq (a b : V) : Bool :=
+  match a, b with
+  | .bool x, .bool y => x == y
+  | .bool _, _ => false
+  | _, .bool _ => false
+  | _, _ => eqV a b
 
 def isErr : V → Bool | .err _ => true | _ => false
 
@@ -192,7 +203,7 @@ partial def evalL : L → V
         | _ => none
       match emb.mapM unpack with
       | some lists =>
-        let m := buildMap eqV isScalarV (own ++ lists.flatten)
+        let m := buildMap keyEq isScalarV (own ++ lists.flatten)
         .map m.scalars m.others
       | none => .err "TypeErr"
 
@@ -233,7 +244,7 @@ def probe (v : V) (args : List String) (propHit : Bool) : V :=
     match parseL k with
     | some kl =>
       let kv := evalL kl
-      match (PanMap.get eqV isScalarV { scalars := sc, others := ot } kv) with
+      match (PanMap.get keyEq isScalarV { scalars := sc, others := ot } kv) with
       | some x => x
       | none => if propHit then .fn else .nil
     | none => .err "bad-op"
